@@ -325,7 +325,7 @@ static bool exec_case(uint64_t run_seed, int only_sched, unsigned nsched, bool r
             bool same = a.size() == b.size();
             for(size_t t = 0; same && t < a.size(); t++) for(size_t i = 0; i < a[t].size(); i++) if(!(a[t][i] == b[t][i])) {
                 same = false;
-                if(getenv("SIM_C19_DEBUG")) fprintf(stderr, "unstable reference: thread %zu op %zu %s (%d,%ld,%llx,%d) vs (%d,%ld,%llx,%d)\n", t, i, OPN[c.threads[t].script[i].kind],
+                if(getenv("SIM_C19_DEBUG")) fprintf(stderr, "unstable reference: run_seed %llu thread %zu op %zu %s (%d,%ld,%llx,%d) vs (%d,%ld,%llx,%d)\n", (unsigned long long)run_seed, t, i, OPN[c.threads[t].script[i].kind],
                     a[t][i].a, a[t][i].b, (unsigned long long)a[t][i].h, a[t][i].err, b[t][i].a, b[t][i].b, (unsigned long long)b[t][i].h, b[t][i].err);
             }
             o.u64(same ? 1 : 0); o.u64(s1); put_results(o, a);
